@@ -195,6 +195,8 @@ pub struct Dbg<'a> {
     pub out_of_budget: bool,
     /// set when the model hits something the claim does not cover while executing
     pub unspecified: Option<&'static str>,
+    /// a TRAP x27 (REG) was executed: its listing has a different format in the normal output mode
+    pub executed_reg: bool,
 }
 
 impl<'a> Dbg<'a> {
@@ -210,6 +212,7 @@ impl<'a> Dbg<'a> {
             budget,
             out_of_budget: false,
             unspecified: None,
+            executed_reg: false,
         }
     }
 
@@ -253,6 +256,9 @@ impl<'a> Dbg<'a> {
         let at = self.vm.pc;
         let w = self.vm.mem[at as usize];
         self.vm.pc = at.wrapping_add(1);
+        if w >> 12 == 0xF && w & 0xFF == 0x27 {
+            self.executed_reg = true;
+        }
         match self.vm.step(w, &mut self.io) {
             Event::Done | Event::Halt => {}
             Event::Unspecified("non-ascii-input") => {}
@@ -501,6 +507,9 @@ impl<'a> Dbg<'a> {
                 None => return Effect::Refused("not encodable"),
             },
         };
+        if word >> 12 == 0xF && word & 0xFF == 0x27 {
+            self.executed_reg = true;
+        }
         match self.vm.step(word, &mut self.io) {
             Event::Done => Effect::Applied,
             Event::Unspecified("non-ascii-input") => Effect::Applied,
